@@ -126,9 +126,15 @@ Theorem C11_agree_sound : forall files builtins r,
   agree (Case files builtins r) = true ->
   match r with
   | ROk out => resolve_files files builtins = inr out
-  | RErr e dg => resolve_files files builtins = inl e /\ dg = Some (diag_pos e)
+  | RErr e dg info msg => resolve_files files builtins = inl e /\ dg = Some (diag_pos e) /\ msg = error_message e
   | RPanic => False
   end.
 Proof. exact agree_sound. Qed.
 Print Assumptions C11_agree_sound.
+
+Theorem C11_sort_is_stable_sort : forall l,
+  Sorted entry_le (sort_by_pos l) /\ Permutation (sort_by_pos l) l /\
+  forall q, filter (same_linecol q) (sort_by_pos l) = filter (same_linecol q) l.
+Proof. exact sort_contract. Qed.
+Print Assumptions C11_sort_is_stable_sort.
 
